@@ -22,7 +22,7 @@ ASSUMPTIONS = [
     'CPython 3.12.1 only',
 ]
 BOUND = {
-    'quick': 'all multiple-inheritance DAGs n=4 x 24 namings; all DAGs n<=3 x kinds x all 2^n hook subsets x every single outcome x repeat{1,2}; all DAGs n<=2 x kinds x hook subsets x all outcome sequences of length 2 x repeat{1,2}',
+    'quick': 'all multiple-inheritance DAGs n=4 x 24 namings; one-sided hook sets for n<=2; all DAGs n<=3 x kinds x all 2^n hook subsets x every single outcome x repeat{1,2}; all DAGs n<=2 x kinds x hook subsets x all outcome sequences of length 2 x repeat{1,2}',
     'thorough': 'quick + all multiple-inheritance DAGs n=5 x 120 namings + length-3 sequences for n<=2, length-2 for n=3, one-sided hook sets (testSetUp only / testTearDown only), and -j2 children',
 }
 CHUNK = 128
@@ -56,6 +56,13 @@ def cases(tier, seed):
                             if ln < L or nmax == 3:
                                 done.add(key)
                             yield [n, g, kind, hm, 'both', list(seq), rep, '']
+    # one-sided hooks: a layer that only defines testSetUp / only testTearDown
+    for n, g, kind in _graphs(2):
+        for hm in range(1, 1 << n):
+            for side in ('S', 'D'):
+                for k in ('pass', 'fail', 'skip_dec', 'sub:1,0,1'):
+                    for rep in (1, 2):
+                        yield [n, g, kind, hm, side, [k, 'pass'], rep, '']
     # hook ORDER over larger graphs: every DAG with ordered bases on 4 (thorough:
     # 5) layers under every naming of the nodes (the runner orders layers by
     # name), all layers hook-bearing, one passing test per layer
